@@ -170,3 +170,15 @@ package cipher
 //@   assert at return: defined(expectedTag) && err != nil ==> len(out) == CL && forall j :: 0 <= j && j < len(out) ==> out[j] == 0
 //@   ensures err == nil ==> forall j :: 0 <= j && j < CL ==> result0[DL + j] == bxor8(CA[CO + j], CTRKS(SKEY(ST), SCTR(ST), j))
 //@   modifies dst[len(dst)..cap(dst)], heap G_spos
+
+// construction: tag size even in 4..16, nonce size 7..13, 128-bit block cipher
+// (a cipher with its own CCM returns its own AEAD type, never the generic one)
+//@ func iface:github.com/emmansun/gmsm/cipher.ccmAble.NewCCM trusted
+//@   ensures err == nil ==> result0 != nil && !typeis(result0, ccm)
+//@   modifies nothing
+//@ func NewCCMWithNonceAndTagSize property C04
+//@   requires cipher != nil
+//@   ensures err == nil ==> result0 != nil && 4 <= tagSize && tagSize <= 16 && tagSize % 2 == 0 && 7 <= nonceSize && nonceSize <= 13
+//@   ensures err == nil && typeis(result0, ccm) ==> ccmok(as(result0, ccm)) && as(result0, ccm).nonceSize == nonceSize && as(result0, ccm).tagSize == tagSize
+//@   heapnonnil
+//@   modifies everything
